@@ -40,6 +40,13 @@ section "Round 3d: C19".
  L4 `f(<T>)` where `f` is a function of the same spec group translated BEFORE this one and given extra parameters by
     L1, `<T>` a declared text parameter of this function             -> `f(<T>, P...)`, and this function gets the same
     extra parameters (they stand for the same thing: the regex applied to the same text).
+
+Further rule families (specified in notes/SRCTIE.md): B1-B8 (section 6.5: a binary file object as (content, position), bytes
+as lists - `reverse_iter_lines`, binary mode), T1-T3 (section 6.6, round 3f: a parameter declared to be the codec name
+'utf-8' - `reverse_iter_lines`, text mode: truth tests fold to the true branch, `X.decode(P)` -> `PyRtC19.decodeUtf8?`),
+J1-J9 (section 6.7, round 3f: `JSONLIterator.next` as a function of the lines its stored iterator still yields and the
+flags it reads; `json.loads` a type-class parameter assumed pure; `try ... except Exception` + bare `raise` by that purity;
+line kinds `bytes` and `str`).
 """
 from __future__ import annotations
 
@@ -71,6 +78,16 @@ OPS = {
     'head': (['List (List β)'], 'List β', 'PyRtC19.head'),            # `ls[0]` where `ls` is known to be non-empty
     'file_read': (['List β', 'Int', 'Int'], 'List β', 'PyRtC19.fileRead'),            # `f.read(n)` at (data, pos)
     'seek_set': (['Int'], 'Int', 'PyRtC19.seekSet?', True),                # `f.seek(p)`: ValueError for a negative p
+    # --- text mode (T-rules, round 3f): `X.decode(P)`, P a parameter declared to be the codec name 'utf-8'
+    'decode_utf8': (['List β'], 'Str', 'PyRtC19.decodeUtf8?', True),       # UnicodeDecodeError (a ValueError) or the text
+    # --- JSONLIterator.next (J-rules, round 3f): the stored line iterator is the list of the lines it still yields
+    'iter_next': (['List (List β)'], 'List β', 'PyRtC19.iterNext?', True),           # `next(it)`: StopIteration when exhausted
+    'iter_rest': (['List (List β)'], 'List (List β)', 'PyRtC19.iterRest'),           # the iterator after that `next`
+    'lstrip_ws': (['List β'], 'List β', 'PyRtC19.lstripWs'),                         # `b.lstrip()` (ASCII white space)
+    'lstrip_ws_t': (['List β'], 'List β', 'PyRtC19.lstripWsT'),                      # `s.lstrip()` on a str (Unicode white space)
+    'rstrip_set': (['List β', 'List β'], 'List β', 'PyRtC19.rstripSet'),             # `b.rstrip(chars)`
+    'json_loads': (['List β'], 'γ', 'PyRtC19.jsonLoads?', True),         # `json.loads(b)`: the instance [JsonLoads β γ]
+    'json_loads_fails': (['List β'], 'Bool', 'PyRtC19.jsonLoadsFails'),  # does `json.loads(b)` raise (a pure function of b)
 }
 BYTES_T = ('List', ('Var', 'β'))
 
@@ -214,8 +231,14 @@ def _file_prepass(f, cfg, notes):
     fc = cfg['file']
     F, DATA, POS = fc['param'], fc['data'], fc['pos']
     nones = list(cfg.get('none_params', []))
+    # T-rules (round 3f): parameters declared to be a NON-EMPTY str naming the codec `cfg['codec']` (only 'utf-8' is known)
+    truthy = list(cfg.get('truthy_params', []))
+    if truthy and cfg.get('codec') != 'utf-8':
+        raise Unsupported(f, 'a codec parameter is declared but the codec is not utf-8')
+    if set(truthy) & set(nones):
+        raise Unsupported(f, 'a parameter is declared both None and a codec name')
     argn = [a.arg for a in f.args.args]
-    if F not in argn or any(p not in argn for p in nones):
+    if F not in argn or any(p not in argn for p in nones + truthy):
         raise Unsupported(f, 'the declared file / None parameters are not parameters of the function')
     if f.args.vararg or f.args.kwarg or f.args.kwonlyargs or f.args.posonlyargs:
         raise Unsupported(f, 'parameter kinds')
@@ -237,7 +260,7 @@ def _file_prepass(f, cfg, notes):
             b = st.body[0]
             # (a) try: P = P or F.<attr>  except AttributeError: P = None      (P declared None)
             if has_attr_err and len(htypes) == 1 and h.name is None and isinstance(b, ast.Assign) and len(b.targets) == 1 \
-                    and isinstance(b.targets[0], ast.Name) and b.targets[0].id in nones \
+                    and isinstance(b.targets[0], ast.Name) and b.targets[0].id in nones + truthy \
                     and isinstance(b.value, ast.BoolOp) and isinstance(b.value.op, ast.Or) and len(b.value.values) == 2 \
                     and isinstance(b.value.values[0], ast.Name) and b.value.values[0].id == b.targets[0].id \
                     and isinstance(b.value.values[1], ast.Attribute) and isinstance(b.value.values[1].value, ast.Name) \
@@ -245,7 +268,8 @@ def _file_prepass(f, cfg, notes):
                     and len(h.body) == 1 and isinstance(h.body[0], ast.Assign) and len(h.body[0].targets) == 1 \
                     and isinstance(h.body[0].targets[0], ast.Name) and h.body[0].targets[0].id == b.targets[0].id \
                     and isinstance(h.body[0].value, ast.Constant) and h.body[0].value.value is None:
-                notes.add('c19:none-probe')
+                # T1: P a non-empty str: `P or F.<attr>` is P (the attribute is not read, nothing is raised)
+                notes.add('c19:truthy-probe' if b.targets[0].id in truthy else 'c19:none-probe')
                 i += 1
                 continue
             # (b) V = F ; try: F = V.detach()  except (AttributeError, ...): pass
@@ -271,9 +295,9 @@ def _file_prepass(f, cfg, notes):
         i += 1
     f.body = out
     # ---- B2: parameters declared None
-    for P in nones:
+    for P in nones + truthy:
         if _names(f, P, (ast.Store, ast.Del)):
-            raise Unsupported(f, 'the parameter %s (declared None) is assigned' % P)
+            raise Unsupported(f, 'the parameter %s (declared None / a codec name) is assigned' % P)
 
     class _Fold(ast.NodeTransformer):
         def visit_IfExp(self, n):
@@ -293,6 +317,36 @@ def _file_prepass(f, cfg, notes):
     for P in nones:
         if _names(f, P):
             raise Unsupported(_names(f, P)[0], 'the parameter %s (declared None) is used otherwise than as a truth test' % P)
+
+    # ---- T2 / T3: parameters declared a codec name: truth tests fold to the TRUE branch, `X.decode(P)` is the operation
+    class _FoldT(ast.NodeTransformer):
+        def visit_IfExp(self, n):
+            self.generic_visit(n)
+            if isinstance(n.test, ast.Name) and n.test.id in truthy:
+                notes.add('c19:truthy-fold')
+                return n.body
+            return n
+
+        def visit_If(self, n):
+            self.generic_visit(n)
+            if isinstance(n.test, ast.Name) and n.test.id in truthy:
+                notes.add('c19:truthy-fold')
+                return n.body
+            return n
+
+        def visit_Call(self, n):
+            self.generic_visit(n)
+            if isinstance(n.func, ast.Attribute) and n.func.attr == 'decode' and not n.keywords and len(n.args) == 1 \
+                    and isinstance(n.args[0], ast.Name) and n.args[0].id in truthy:
+                notes.add('c19:decode')
+                return _opcall('decode_utf8', [n.func.value], n)
+            return n
+    if truthy:
+        _FoldT().visit(f)
+    for P in truthy:
+        if _names(f, P):
+            raise Unsupported(_names(f, P)[0], 'the parameter %s (declared a codec name) is used otherwise than as a truth '
+                                               'test or as the argument of .decode()' % P)
     # ---- B4: seek / tell / read on the declared file parameter
     if _names(f, F, (ast.Store, ast.Del)):
         raise Unsupported(f, 'the file parameter %s is rebound' % F)
@@ -363,7 +417,7 @@ def _file_prepass(f, cfg, notes):
     for a in f.args.args:
         if a.arg == F:
             new_args += [ast.arg(arg=DATA), ast.arg(arg=POS)]
-        elif a.arg not in nones:
+        elif a.arg not in nones + truthy:
             new_args.append(a)
     f.args.args = new_args
     f.args.defaults = []
@@ -466,6 +520,302 @@ def _file_prepass(f, cfg, notes):
     return f
 
 
+def _jsonl_prepass(f, cfg, mtree, notes):
+    """J1-J7 (notes/SRCTIE.md section 6.6): `JSONLIterator.next` as a function of (the lines the stored line iterator still
+    yields, the flags it reads) returning (the object, the lines left)"""
+    jc = cfg['jsonl']
+    IT_ATTR, IT = jc['iter_attr'], jc['iter_param']
+    flags = dict(jc.get('flags') or {})                  # attribute -> parameter name
+    KIND = jc.get('line_kind')
+    if KIND not in ('bytes', 'str') or jc.get('loads') != 'json.loads':
+        raise Unsupported(f, 'only the kinds `lines are bytes / str, parsed by json.loads` are known')
+    a = f.args
+    if len(a.args) != 1 or a.vararg or a.kwarg or a.kwonlyargs or a.posonlyargs or a.defaults:
+        raise Unsupported(f, 'a method of self alone is expected')
+    SELF = a.args[0].arg
+    reserved = {IT, 'jv_line'} | set(flags.values())
+    for n in ast.walk(f):
+        if isinstance(n, ast.Name) and n.id in reserved:
+            raise Unsupported(n, 'the name %s reserved for the iterator state is used by the source' % n.id)
+        if isinstance(n, (ast.FunctionDef, ast.Lambda, ast.ClassDef, ast.Global, ast.Nonlocal, ast.Yield, ast.YieldFrom)) \
+                and n is not f:
+            raise Unsupported(n, 'nested scope / generator')
+    if _names(f, SELF, (ast.Store, ast.Del)) or _names(f, 'json', (ast.Store, ast.Del)) or _names(f, 'next', (ast.Store, ast.Del)) \
+            or _names(f, 'isinstance', (ast.Store, ast.Del)):
+        raise Unsupported(f, 'self / json / next / isinstance is rebound')
+    if mtree is not None:
+        imp = [n for n in mtree.body if isinstance(n, ast.Import) and any(al.name == 'json' and al.asname is None for al in n.names)]
+        bound = [n for n in ast.walk(mtree) if (isinstance(n, ast.Name) and n.id in ('json', 'next', 'isinstance')
+                                                and isinstance(n.ctx, (ast.Store, ast.Del)))
+                 or (isinstance(n, (ast.FunctionDef, ast.ClassDef)) and n.name in ('json', 'isinstance'))
+                 or (isinstance(n, ast.FunctionDef) and n.name == 'next' and n not in
+                     [m for c in mtree.body if isinstance(c, ast.ClassDef) for m in c.body])]
+        if len(imp) != 1 or bound:
+            raise Unsupported(f, '`json` is not the module imported once at top level, or a builtin is shadowed')
+
+    def is_self_attr(n, attr=None):
+        return isinstance(n, ast.Attribute) and isinstance(n.value, ast.Name) and n.value.id == SELF \
+            and isinstance(n.ctx, ast.Load) and (attr is None or n.attr == attr)
+
+    def is_next(n):
+        return isinstance(n, ast.Call) and isinstance(n.func, ast.Name) and n.func.id == 'next' and len(n.args) == 1 \
+            and not n.keywords and is_self_attr(n.args[0], IT_ATTR)
+
+    def name(n_, ctx):
+        return ast.Name(id=n_, ctx=ctx)
+
+    # ---- J2: `V = next(self.<it>)[.m(...)...]`: the `next` is the innermost receiver, evaluated before everything else
+    def stmts(ss):
+        res = []
+        for st in ss:
+            if isinstance(st, ast.Assign) and any(is_next(n) for n in ast.walk(st.value)):
+                if len(st.targets) != 1 or not isinstance(st.targets[0], ast.Name):
+                    raise Unsupported(st, 'next(...) assigned to something else than a local')
+                chain, cur, parent = [], st.value, None
+                while not is_next(cur):
+                    if isinstance(cur, ast.Call) and isinstance(cur.func, ast.Attribute):
+                        parent, cur = cur.func, cur.func.value
+                    else:
+                        raise Unsupported(st, 'next(...) is not the innermost receiver of the assigned expression')
+                if sum(1 for n in ast.walk(st.value) if is_next(n)) != 1:
+                    raise Unsupported(st, 'more than one next(...) in one statement')
+                notes.add('c19:iter-next')
+                res.append(ast.copy_location(ast.Assign(targets=[name('jv_line', ast.Store())],
+                                                        value=_opcall('iter_next', [name(IT, ast.Load())], st)), st))
+                res.append(ast.copy_location(ast.Assign(targets=[name(IT, ast.Store())],
+                                                        value=_opcall('iter_rest', [name(IT, ast.Load())], st)), st))
+                if parent is None:
+                    st.value = name('jv_line', ast.Load())
+                else:
+                    parent.value = name('jv_line', ast.Load())
+                res.append(st)
+                continue
+            for fld in ('body', 'orelse', 'finalbody'):
+                if isinstance(getattr(st, fld, None), list) and getattr(st, fld) and isinstance(getattr(st, fld)[0], ast.stmt):
+                    setattr(st, fld, stmts(getattr(st, fld)))
+            if isinstance(st, ast.Try):
+                for h in st.handlers:
+                    h.body = stmts(h.body)
+            res.append(st)
+        return res
+    f.body = stmts(f.body)
+
+    # ---- J1: the flags self.<attr> (read only)
+    class _Flags(ast.NodeTransformer):
+        def visit_Attribute(self, n):
+            if is_self_attr(n) and n.attr in flags:
+                notes.add('c19:self-flag')
+                return ast.copy_location(name(flags[n.attr], ast.Load()), n)
+            self.generic_visit(n)
+            return n
+    _Flags().visit(f)
+    if _names(f, SELF):
+        raise Unsupported(_names(f, SELF)[0], 'self is used otherwise than through next(self.%s) in an assignment and the '
+                                              'declared flags' % IT_ATTR)
+
+    # ---- J3: lstrip() / rstrip(chars) on lines; J4: isinstance(<line>, str|bytes) by the declared kind; J5: constant tests
+    class _Lines(ast.NodeTransformer):
+        def visit_Call(self, n):
+            self.generic_visit(n)
+            if isinstance(n.func, ast.Attribute) and not n.keywords:
+                if n.func.attr == 'lstrip' and not n.args:
+                    notes.add('c19:lstrip')
+                    return _opcall('lstrip_ws' if KIND == 'bytes' else 'lstrip_ws_t', [n.func.value], n)
+                if n.func.attr == 'rstrip' and len(n.args) == 1:
+                    notes.add('c19:rstrip')
+                    return _opcall('rstrip_set', [n.func.value, n.args[0]], n)
+            return n
+    _Lines().visit(f)
+    line_ops = (OP + 'iter_next', OP + 'lstrip_ws', OP + 'lstrip_ws_t', OP + 'rstrip_set')
+    binds = {}
+    for n in ast.walk(f):
+        tg = []
+        if isinstance(n, ast.Assign):
+            tg = [(t, n.value) for t in n.targets]
+        elif isinstance(n, (ast.AugAssign, ast.AnnAssign)):
+            tg = [(n.target, None)]
+        elif isinstance(n, (ast.For, ast.comprehension)):
+            tg = [(n.target, None)]
+        elif isinstance(n, ast.NamedExpr):
+            tg = [(n.target, None)]
+        elif isinstance(n, (ast.With,)):
+            tg = [(i.optional_vars, None) for i in n.items if i.optional_vars is not None]
+        for t, v in tg:
+            for m in ast.walk(t):
+                if isinstance(m, ast.Name):
+                    binds.setdefault(m.id, []).append(v if isinstance(t, ast.Name) else None)
+    line_vars = {'jv_line'}
+    changed = True
+    while changed:
+        changed = False
+        for v, vals in binds.items():
+            if v in line_vars:
+                continue
+            if vals and all(x is not None and ((isinstance(x, ast.Call) and isinstance(x.func, ast.Name) and x.func.id in line_ops
+                                                and (x.func.id == OP + 'iter_next' or (isinstance(x.args[0], ast.Name)
+                                                                                      and x.args[0].id in line_vars | {v})))
+                                               or (isinstance(x, ast.Name) and x.id in line_vars | {v})) for x in vals) \
+                    and any(not (isinstance(x, ast.Name) and x.id == v) and not (isinstance(x, ast.Call) and x.func.id != OP + 'iter_next'
+                                                                                   and x.args[0].id == v) for x in vals):
+                line_vars.add(v)
+                changed = True
+
+    class _Kind(ast.NodeTransformer):
+        def visit_Call(self, n):
+            self.generic_visit(n)
+            if isinstance(n.func, ast.Name) and n.func.id == 'isinstance' and len(n.args) == 2 and not n.keywords \
+                    and isinstance(n.args[0], ast.Name) and n.args[0].id in line_vars and isinstance(n.args[1], ast.Name) \
+                    and n.args[1].id in ('str', 'bytes'):
+                notes.add('c19:line-kind')
+                return ast.copy_location(ast.Constant(value=(n.args[1].id == KIND)), n)
+            return n
+
+        def visit_IfExp(self, n):
+            self.generic_visit(n)
+            if isinstance(n.test, ast.Constant) and isinstance(n.test.value, bool):
+                notes.add('c19:const-fold')
+                return n.body if n.test.value else n.orelse
+            return n
+
+        def visit_If(self, n):
+            self.generic_visit(n)
+            if isinstance(n.test, ast.Constant) and isinstance(n.test.value, bool):
+                notes.add('c19:const-fold')
+                return (n.body if n.test.value else n.orelse) or [ast.copy_location(ast.Pass(), n)]
+            return n
+    _Kind().visit(f)
+    for n in ast.walk(f):
+        if isinstance(n, ast.Name) and n.id == 'isinstance':
+            raise Unsupported(n, 'isinstance on something else than a line against str / bytes')
+
+    # ---- J6: json.loads; `try: V = json.loads(X)` / `except Exception: H` with bare `raise` in H
+    def is_loads(n):
+        return isinstance(n, ast.Call) and ast.unparse(n.func) == 'json.loads' and len(n.args) == 1 and not n.keywords \
+            and isinstance(n.args[0], ast.Name) and n.args[0].id in line_vars
+
+    def reraise(ss, V, X, at_top=True):
+        out = []
+        for st in ss:
+            if isinstance(st, ast.Raise) and st.exc is None and st.cause is None:
+                notes.add('c19:reraise')
+                out.append(ast.copy_location(ast.Assign(targets=[name(V, ast.Store())],
+                                                        value=_opcall('json_loads', [name(X, ast.Load())], st)), st))
+                continue
+            if isinstance(st, ast.If):
+                st.body = reraise(st.body, V, X, False)
+                st.orelse = reraise(st.orelse, V, X, False)
+            elif any(isinstance(m, ast.Raise) and m.exc is None for m in ast.walk(st)):
+                raise Unsupported(st, 'bare raise inside this statement of the handler')
+            out.append(st)
+        return out
+
+    def tries(ss):
+        res = []
+        for st in ss:
+            if isinstance(st, ast.Try) and any(ast.unparse(m.func) == 'json.loads' for m in ast.walk(st) if isinstance(m, ast.Call)):
+                h = st.handlers[0] if len(st.handlers) == 1 else None
+                b = st.body[0] if len(st.body) == 1 else None
+                if h is None or st.orelse or st.finalbody or h.name is not None or not (isinstance(h.type, ast.Name) and h.type.id == 'Exception') \
+                        or not (isinstance(b, ast.Assign) and len(b.targets) == 1 and isinstance(b.targets[0], ast.Name) and is_loads(b.value)):
+                    raise Unsupported(st, 'try around json.loads of another shape than `try: V = json.loads(<line>)` / `except Exception:`')
+                V, X = b.targets[0].id, b.value.args[0].id
+                if any(isinstance(m, ast.Name) and m.id in (X, V) and isinstance(m.ctx, (ast.Store, ast.Del)) for hs in h.body for m in ast.walk(hs)) \
+                        or any(isinstance(m, ast.Name) and m.id == V for hs in h.body for m in ast.walk(hs)):
+                    raise Unsupported(st, 'the handler binds or reads the parsed line / the result')
+                if any(isinstance(m, ast.Call) and ast.unparse(m.func) == 'json.loads' for hs in h.body for m in ast.walk(hs)):
+                    raise Unsupported(st, 'json.loads inside the handler')
+                notes.add('c19:try-loads')
+                ok = ast.copy_location(ast.Assign(targets=[name(V, ast.Store())], value=_opcall('json_loads', [name(X, ast.Load())], b)), b)
+                res.append(ast.copy_location(ast.If(test=_opcall('json_loads_fails', [name(X, ast.Load())], st),
+                                                    body=reraise(tries(h.body), V, X) or [ast.Pass()], orelse=[ok]), st))
+                continue
+            for fld in ('body', 'orelse', 'finalbody'):
+                if isinstance(getattr(st, fld, None), list) and getattr(st, fld) and isinstance(getattr(st, fld)[0], ast.stmt):
+                    setattr(st, fld, tries(getattr(st, fld)))
+            if isinstance(st, ast.Try):
+                for h in st.handlers:
+                    h.body = tries(h.body)
+            res.append(st)
+        return res
+    f.body = tries(f.body)
+
+    class _Loads(ast.NodeTransformer):
+        def visit_Call(self, n):
+            self.generic_visit(n)
+            if is_loads(n):
+                notes.add('c19:json-loads')
+                return _opcall('json_loads', [n.args[0]], n)
+            return n
+    _Loads().visit(f)
+    for n in ast.walk(f):
+        if isinstance(n, ast.Name) and n.id == 'json':
+            raise Unsupported(n, 'json used otherwise than as json.loads(<line>)')
+        if isinstance(n, ast.Raise) and n.exc is None:
+            raise Unsupported(n, 'bare raise outside the handler of the json.loads try')
+
+    # ---- B3: bytes literals; J9 (kind `str`): a str literal is the list of its code points (after J5 removed the dead branch,
+    # a literal of the OTHER kind is refused)
+    class _Bytes(ast.NodeTransformer):
+        def visit_Constant(self, n):
+            if isinstance(n.value, bytes):
+                if KIND != 'bytes':
+                    raise Unsupported(n, 'a bytes literal where the lines are str')
+                notes.add('c19:bytes-literal')
+                return _opcall('bytes', [n], n)
+            if isinstance(n.value, str) and KIND == 'str':
+                notes.add('c19:text-literal')
+                return _opcall('text', [n], n)
+            return n
+
+        def visit_Expr(self, n):
+            if isinstance(n.value, ast.Constant) and isinstance(n.value.value, str):
+                return n                      # a docstring / string statement: no effect
+            self.generic_visit(n)
+            return n
+
+        def visit_Call(self, n):
+            if isinstance(n.func, ast.Name) and n.func.id in (OP + 'bytes', OP + 'text'):
+                return n
+            self.generic_visit(n)
+            return n
+    _Bytes().visit(f)
+
+    # ---- J7: `return E` -> `return (E, <it>)`
+    for n in ast.walk(f):
+        if isinstance(n, ast.Return):
+            if n.value is None:
+                raise Unsupported(n, 'return without a value')
+            n.value = ast.Tuple(elts=[n.value, name(IT, ast.Load())], ctx=ast.Load())
+            notes.add('c19:return-state')
+    # ---- J8: the function ends with `while <true constant>:` without `break`: control never leaves the loop by its end;
+    # the base translator asks for an explicit end, so an (unreachable) `raise RecursionError` is appended
+    last = f.body[-1] if f.body else None
+    if isinstance(last, ast.While) and isinstance(last.test, ast.Constant) and type(last.test.value) in (int, bool) \
+            and last.test.value in (1, True) and not last.orelse:
+        def has_break(ss):
+            for st in ss:
+                if isinstance(st, ast.Break):
+                    return True
+                if isinstance(st, (ast.While, ast.For)):
+                    if has_break(st.orelse):
+                        return True
+                    continue
+                for fld in ('body', 'orelse', 'finalbody'):
+                    if isinstance(getattr(st, fld, None), list) and has_break([x for x in getattr(st, fld) if isinstance(x, ast.stmt)]):
+                        return True
+                if isinstance(st, ast.Try) and any(has_break(h.body) for h in st.handlers):
+                    return True
+            return False
+        if not has_break(last.body):
+            notes.add('c19:endless-loop')
+            last.test = ast.copy_location(ast.Constant(value=True), last.test)
+            f.body.append(ast.copy_location(ast.Raise(exc=ast.Name(id='RecursionError', ctx=ast.Load()), cause=None), last))
+    f.args.args = [ast.arg(arg=IT)] + [ast.arg(arg=p) for p in flags.values()]
+    f.args.defaults = []
+    ast.fix_missing_locations(f)
+    return f
+
+
 def prepass(fdef, tree, spec, notes):
     """-> the function rewritten into the base subset (a copy); `notes` collects the names of the applied rules"""
     cfg = _cfg(spec)
@@ -474,6 +824,8 @@ def prepass(fdef, tree, spec, notes):
     mtree = getattr(fdef, '_module_tree', None) or tree
     f = copy.deepcopy(fdef)
     f._module_tree = mtree
+    if cfg.get('jsonl'):
+        return _jsonl_prepass(f, cfg, mtree, notes)
     if cfg.get('file'):
         return _file_prepass(f, cfg, notes)
     texts = list(cfg.get('text', []))
@@ -598,6 +950,11 @@ def translate_op(ex, node, expected):
         if len(node.args) != 1 or not (isinstance(node.args[0], ast.Constant) and isinstance(node.args[0].value, bytes)):
             raise Unsupported(node, 'bytes literal expected')
         return '(PyRtC19.bytesLit [%s] : List β)' % ', '.join(str(b) for b in node.args[0].value), BYTES_T
+    if name == 'text':
+        # J9: a str literal (lines of kind str) is the list of its code points, items of β
+        if len(node.args) != 1 or not (isinstance(node.args[0], ast.Constant) and isinstance(node.args[0].value, str)):
+            raise Unsupported(node, 'str literal expected')
+        return '(PyRtC19.bytesLit [%s] : List β)' % ', '.join(str(ord(c)) for c in node.args[0].value), BYTES_T
     if name not in OPS or node.keywords:
         raise Unsupported(node, 'unknown operation %s' % node.func.id)
     ptypes, rtype, lean = OPS[name][:3]
@@ -719,6 +1076,61 @@ _DRV_CASES['reverse_iter_lines'] = r'''
     | none => "bad"
 '''
 
+# case id 3: `3 lfuel preseek pos blocksize <data>` -> the generated reverse_iter_lines_text (text mode, encoding='utf-8') at
+#            β = Nat on the abstract file; a line is the list of the code points of its characters
+_DRV_CASES['reverse_iter_lines_text'] = r'''
+  | 3 :: lf :: ps :: pos :: bs :: r =>
+    match takeN r with
+    | some (d, _) =>
+      match Src.jsonutils.reverse_iter_lines_text (β := Nat) lf.toNat (d.map Int.toNat) pos bs (ps != 0) with
+      | .ok ls => showInts (1 :: encLines (ls.map (fun l => l.map Char.toNat)))
+      | .error PyExc.ValueError => "0 ValueError"
+      | .error _ => "0 other"
+    | none => "bad"
+'''
+
+# case id 4: `4 lfuel ignore_errors n <line>*n` -> next() of the generated JSONLIterator_next called until it raises, at β = Nat with
+#            the fake `json.loads` of the self-test (FAKE_LOADS below = the instance here): the objects, then how it ended
+_DRV_PRE = {'JSONLIterator_next': r'''
+instance : PyRtC19.JsonLoads Nat Int := ⟨fun b => match b with
+  | 120 :: _ => .error PyExc.ValueError
+  | 121 :: _ => .error PyExc.KeyError
+  | 122 :: _ => .error PyExc.TypeError
+  | _ => .ok (((b.foldl (· + ·) 0 : Nat) : Int) * 31 + (b.length : Int))⟩
+
+def takeLines : Nat → List Int → List (List Nat)
+  | 0, _ => []
+  | n + 1, r => match takeN r with
+    | some (l, r2) => l.map Int.toNat :: takeLines n r2
+    | none => []
+
+partial def drainNext (fuel : Nat) (ig : Bool) (ls : List (List Nat)) (acc : List Int) : String :=
+  match Src.jsonutils.JSONLIterator_next (β := Nat) fuel ls ig with
+  | .ok (v, rest) => drainNext fuel ig rest (acc ++ [v])
+  | .error PyExc.StopIteration => showInts acc ++ " S"
+  | .error PyExc.ValueError => showInts acc ++ " E ValueError"
+  | .error PyExc.KeyError => showInts acc ++ " E KeyError"
+  | .error PyExc.TypeError => showInts acc ++ " E TypeError"
+  | .error _ => showInts acc ++ " E other"
+'''}
+_DRV_CASES['JSONLIterator_next'] = r'''
+  | 4 :: lf :: ig :: n :: r => drainNext lf.toNat (ig != 0) (takeLines n.toNat r) []
+'''
+# case id 5: the same for the str kind (a line is the list of its code points; the same fake json.loads on code points)
+_DRV_PRE['JSONLIterator_next_text'] = r'''
+partial def drainNextT (fuel : Nat) (ig : Bool) (ls : List (List Nat)) (acc : List Int) : String :=
+  match Src.jsonutils.JSONLIterator_next_text (β := Nat) fuel ls ig with
+  | .ok (v, rest) => drainNextT fuel ig rest (acc ++ [v])
+  | .error PyExc.StopIteration => showInts acc ++ " S"
+  | .error PyExc.ValueError => showInts acc ++ " E ValueError"
+  | .error PyExc.KeyError => showInts acc ++ " E KeyError"
+  | .error PyExc.TypeError => showInts acc ++ " E TypeError"
+  | .error _ => showInts acc ++ " E other"
+'''
+_DRV_CASES['JSONLIterator_next_text'] = r'''
+  | 5 :: lf :: ig :: n :: r => drainNextT lf.toNat (ig != 0) (takeLines n.toNat r) []
+'''
+
 # the menu of `key` predicates of the indent cases: index -> (Python callable, the same predicate in the Lean driver)
 KEY_MENU = [bool, lambda l: True, lambda l: False, lambda l: l[:1] == 'a', lambda l: len(l) % 2 == 0]
 _DRV_KEYS = r'''
@@ -821,6 +1233,174 @@ def _cases_reverse_iter_lines(mod, spec, rng, quick):
     return out
 
 
+# UTF-8 material: ASCII, 2/3/4-byte characters, and every kind of malformed sequence (lone continuation, truncated,
+# over-long, surrogate, above U+10FFFF, 0xC0/0xC1/0xF5+ lead bytes)
+UTF8_PIECES = [b'a', b'b', b' ', b'\n', b'\n', b'\r\n', b'\r', '\xe9'.encode(), '\u20ac'.encode(), '\U0001F600'.encode(),
+               '\x85'.encode(), '\u2028'.encode(), '\ud7ff'.encode(), '\ue000'.encode(), '\U0010ffff'.encode(), '\x7f'.encode(),
+               '\x80'.encode(), '\u07ff'.encode(), '\u0800'.encode(), '\uffff'.encode(), '\U00010000'.encode(),
+               b'\x80', b'\xbf', b'\xc3', b'\xe2\x82', b'\xf0\x9f\x98', b'\xc0\x80', b'\xc1\xbf', b'\xe0\x80\x80',
+               b'\xe0\x9f\xbf', b'\xed\xa0\x80', b'\xed\xbf\xbf', b'\xf0\x80\x80\x80', b'\xf0\x8f\xbf\xbf',
+               b'\xf4\x90\x80\x80', b'\xf5\x80\x80\x80', b'\xff', b'\xfe', b'\xc3\x28', b'\xe2\x28\xa1', b'\xf0\x28\x8c\xbc']
+
+
+def _cases_reverse_iter_lines_text(mod, spec, rng, quick):
+    """text mode: `encoding='utf-8'` given, the file a binary file object without `.encoding` (io.BytesIO)"""
+    import io
+    out = []
+    fixed = [b'', b'\n', b'a', b'a\n', b'\na', b'\r\n', 'h\xe9\nw\u20ac\r\n\U0001F600'.encode(), b'ok\n\xff\nok2\n', b'\xff\nok\n',
+             b'ok\n\xed\xa0\x80', '\u2028x\x85y\n'.encode(), b'\xc3\n\xa9']
+    datas = list(fixed)
+    for _ in range(300 if quick else 4000):
+        k = rng.choice([0, 1, 2, 3, 4, 6, 9, 14])
+        if rng.random() < 0.5:        # well-formed more often than not, so that long .ok results are compared too
+            datas.append(b''.join(rng.choice(UTF8_PIECES[:21]) for _ in range(k)))
+        else:
+            datas.append(b''.join(rng.choice(UTF8_PIECES) for _ in range(k)))
+    for d in datas:
+        bs = rng.choice([1, 1, 2, 3, 4, 7, 16, 4096])
+        preseek = rng.random() < 0.5
+        pos = rng.randrange(0, len(d) + 3) if rng.random() < 0.8 else 0
+        f = io.BytesIO(d)
+        f.seek(pos)
+        try:
+            ls = list(mod.reverse_iter_lines(f, blocksize=bs, preseek=preseek, encoding='utf-8'))
+            if not all(isinstance(l, str) for l in ls):
+                raise TypeError('a line that is not a str')
+            want = [1] + _enc_lines(ls)
+        except ValueError:              # UnicodeDecodeError is a ValueError
+            want = [0, 'ValueError']
+        except Exception:      # noqa: BLE001
+            want = [0, 'other']
+        out.append(([3, max(len(d), pos) + 2, int(preseek), pos, bs] + [len(d)] + list(d), want, repr((d, bs, preseek, pos))))
+    return out
+
+
+def FAKE_LOADS(b):
+    """the `json.loads` of the JSONLIterator.next cases: a pure function of the line with three ways of raising"""
+    if not isinstance(b, bytes):
+        raise AssertionError('json.loads was handed %r' % (b,))
+    if b[:1] == b'x':
+        raise ValueError('x')
+    if b[:1] == b'y':
+        raise KeyError('y')
+    if b[:1] == b'z':
+        raise TypeError('z')
+    return sum(b) * 31 + len(b)
+
+
+JSONL_PIECES = [b'a', b'x', b'y', b'z', b' ', b' ', b'\t', b'\n', b'\r', b'\r\n', b'\x0b', b'\x0c', b'\x1c', b'\x85', b'\xa0', b'{', b'1', b'\x00']
+
+
+def _cases_jsonl_next(mod, spec, rng, quick):
+    """`next()` until it raises, on an object whose `_line_iter` yields the given lines; half of the line lists are what
+    iterating an io.BytesIO (forward mode) / reverse_iter_lines (reverse mode) yields for a random content"""
+    import io
+    import types
+    out = []
+    real_json = mod.json
+    mod.json = types.SimpleNamespace(loads=FAKE_LOADS)
+    try:
+        for i in range(300 if quick else 4000):
+            k = rng.choice([0, 1, 2, 3, 5, 8])
+            mode = rng.choice(['lines', 'lines', 'forward', 'reverse'])
+            if mode == 'lines':
+                lines = [b''.join(rng.choice(JSONL_PIECES) for _ in range(rng.choice([0, 1, 2, 3, 5]))) for _ in range(k)]
+            else:
+                d = b''.join(rng.choice(JSONL_PIECES + [b'\n', b'\n']) for _ in range(k * 3))
+                lines = list(io.BytesIO(d)) if mode == 'forward' else list(mod.reverse_iter_lines(io.BytesIO(d), blocksize=rng.choice([1, 3, 4096])))
+            ignore = rng.random() < 0.5
+            if mode == 'lines':
+                it = mod.JSONLIterator.__new__(mod.JSONLIterator)
+                it._line_iter = iter(list(lines))
+                it.ignore_errors = ignore
+            else:
+                it = mod.JSONLIterator(io.BytesIO(d), ignore_errors=ignore, reverse=(mode == 'reverse'))
+            want = []
+            while True:
+                try:
+                    want.append(mod.JSONLIterator.next(it))
+                except StopIteration:
+                    want.append('S')
+                    break
+                except (ValueError, KeyError, TypeError) as e:
+                    want += ['E', type(e).__name__]
+                    break
+                except Exception:      # noqa: BLE001
+                    want += ['E', 'other']
+                    break
+            toks = [4, len(lines) + 1, int(ignore), len(lines)]
+            for l in lines:
+                toks += [len(l)] + list(l)
+            out.append((toks, want, repr((mode, lines, ignore))))
+    finally:
+        mod.json = real_json
+    return out
+
+
+def FAKE_LOADS_T(t):
+    """FAKE_LOADS on a str line (the same function of the code points)"""
+    if not isinstance(t, str):
+        raise AssertionError('json.loads was handed %r' % (t,))
+    if t[:1] == 'x':
+        raise ValueError('x')
+    if t[:1] == 'y':
+        raise KeyError('y')
+    if t[:1] == 'z':
+        raise TypeError('z')
+    return sum(ord(c) for c in t) * 31 + len(t)
+
+
+JSONL_PIECES_T = ['a', 'x', 'y', 'z', ' ', ' ', '\t', '\n', '\r', '\r\n', '\x0b', '\x0c', '\x1c', '\x1d', '\x1e', '\x1f', '\x85', '\xa0',
+                  '\u1680', '\u2000', '\u200a', '\u200b', '\u2028', '\u2029', '\u202f', '\u205f', '\u3000', '\ufeff', '{', '1', '\x00',
+                  '\U0001F600', '\x1b', '\u180e']
+
+
+def _cases_jsonl_next_text(mod, spec, rng, quick):
+    """the str kind: `next()` until it raises, on an object whose `_line_iter` yields the given str lines; half of the
+    line lists are what iterating an io.StringIO yields"""
+    import io
+    import types
+    out = []
+    real_json = mod.json
+    mod.json = types.SimpleNamespace(loads=FAKE_LOADS_T)
+    try:
+        for i in range(300 if quick else 4000):
+            k = rng.choice([0, 1, 2, 3, 5, 8])
+            mode = rng.choice(['lines', 'forward'])
+            if mode == 'lines':
+                lines = [''.join(rng.choice(JSONL_PIECES_T) for _ in range(rng.choice([0, 1, 2, 3, 5]))) for _ in range(k)]
+            else:
+                d = ''.join(rng.choice(JSONL_PIECES_T + ['\n', '\n']) for _ in range(k * 3))
+                lines = list(io.StringIO(d))
+            ignore = rng.random() < 0.5
+            if mode == 'lines':
+                it = mod.JSONLIterator.__new__(mod.JSONLIterator)
+                it._line_iter = iter(list(lines))
+                it.ignore_errors = ignore
+            else:
+                it = mod.JSONLIterator(io.StringIO(d), ignore_errors=ignore)
+            want = []
+            while True:
+                try:
+                    want.append(mod.JSONLIterator.next(it))
+                except StopIteration:
+                    want.append('S')
+                    break
+                except (ValueError, KeyError, TypeError) as e:
+                    want += ['E', type(e).__name__]
+                    break
+                except Exception:      # noqa: BLE001
+                    want += ['E', 'other']
+                    break
+            toks = [5, len(lines) + 1, int(ignore), len(lines)]
+            for l in lines:
+                toks += [len(l)] + [ord(c) for c in l]
+            out.append((toks, want, repr((mode, lines, ignore))))
+    finally:
+        mod.json = real_json
+    return out
+
+
 def _enc_bytes_lines(ls):
     out = [len(ls)]
     for l in ls:
@@ -830,7 +1410,9 @@ def _enc_bytes_lines(ls):
     return out
 
 
-CASES = {'iter_splitlines': _cases_iter_splitlines, 'indent': _cases_indent, 'reverse_iter_lines': _cases_reverse_iter_lines}
+CASES = {'iter_splitlines': _cases_iter_splitlines, 'indent': _cases_indent, 'reverse_iter_lines': _cases_reverse_iter_lines,
+         'reverse_iter_lines_text': _cases_reverse_iter_lines_text, 'JSONLIterator_next': _cases_jsonl_next,
+         'JSONLIterator_next_text': _cases_jsonl_next_text}
 
 
 def selftest(pids, quick=False, seed=0, verbose=True):
@@ -848,13 +1430,14 @@ def selftest(pids, quick=False, seed=0, verbose=True):
         infos.extend(i)
     ok = {i['lean_def'].split('.', 2)[2] for i in infos if not i.get('error')}
     rng = random.Random('py2lean-c19-selftest-%d' % seed)
-    lines, meta, arms, imports = [], [], [], set()
+    lines, meta, arms, imports, pre = [], [], [], set(), []
     for sp in specs:
         name = sp['lean_name']
         if name not in ok or name not in CASES:
             continue
         mod = importlib.import_module(sp['module'])
         arms.append(_DRV_CASES[name])
+        pre.append(_DRV_PRE.get(name, ''))
         imports.add('BoltonsVerif.Generated.Src_%s' % (sp.get('gen_file') or sp['module'].split('.')[-1]))
         for toks, want, what in CASES[name](mod, sp, rng, quick):
             lines.append(' '.join(map(str, toks)))
@@ -863,7 +1446,7 @@ def selftest(pids, quick=False, seed=0, verbose=True):
     if not lines:
         return 0, report
     src = ''.join('import %s\n' % m for m in sorted(imports)) + 'import BoltonsVerif.Generated.C19_LineEndings\n' \
-        'import BoltonsVerif.PyRtC19\n' + _DRV_HEAD + _DRV_KEYS + '\ndef handle : List Int → String\n' + ''.join(arms) \
+        'import BoltonsVerif.PyRtC19\n' + _DRV_HEAD + _DRV_KEYS + ''.join(pre) + '\ndef handle : List Int → String\n' + ''.join(arms) \
         + '  | _ => "bad"\n' + _DRV_TAIL
     tmp = tempfile.mkdtemp(prefix='py2lean-c19-selftest-')
     try:
@@ -894,7 +1477,7 @@ def selftest(pids, quick=False, seed=0, verbose=True):
             r['mismatches'] += 1
             mismatches.append((name, what, 'Python stream %s but Lean stream %s' % (' '.join(map(str, want)), got)))
     rj = reject_tests(verbose=False)       # side conditions of the front-end: every violating snippet is refused
-    report['_reject_tests'] = {'snippets': len(REJECT) + len(REJECT_REV), 'not_refused': [w for w, _ in rj]}
+    report['_reject_tests'] = {'snippets': len(REJECT) + len(REJECT_REV) + len(REJECT_REV_TEXT) + len(REJECT_JSONL) + len(REJECT_JSONL_STR), 'not_refused': [w for w, _ in rj]}
     for what, why in rj:
         mismatches.append(('reject-test', what, str(why)))
     report['_mismatches'] = [{'function': n, 'case': c, 'what': b} for n, c, b in mismatches[:5]]
@@ -1023,6 +1606,78 @@ REJECT_REV = [
     ('splitlines of a str', lambda: _rv("lines = buff.splitlines()\n        if len", "lines = 'a b'.splitlines()\n        if len")),
 ]
 
+# text mode (round 3f): the spec of index 1 (`reverse_iter_lines_text`, `encoding` declared the codec name 'utf-8')
+REJECT_REV_TEXT = [
+    ('codec parameter assigned', lambda: _rv("    if preseek:", "    encoding = 'latin-1'\n    if preseek:")),
+    ('codec parameter passed on', lambda: _rv("    buff = empty_bytes", "    print(encoding)\n    buff = empty_bytes")),
+    ('codec parameter compared', lambda: _rv("    buff = empty_bytes", "    if encoding == 'utf-16':\n        return\n    buff = empty_bytes")),
+    ('decode with an errors argument', lambda: _rv("yield line.decode(encoding) if encoding else line\n        buff", "yield line.decode(encoding, 'replace') if encoding else line\n        buff")),
+    ('decode with a keyword', lambda: _rv("yield line.decode(encoding) if encoding else line\n        buff", "yield line.decode(encoding=encoding) if encoding else line\n        buff")),
+    ('decode with another codec', lambda: _rv("yield line.decode(encoding) if encoding else line\n        buff", "yield line.decode('latin-1') if encoding else line\n        buff")),
+    ('decode without a codec', lambda: _rv("yield line.decode(encoding) if encoding else line\n        buff", "yield line.decode() if encoding else line\n        buff")),
+    ('probe that reads the attribute first', lambda: _rv("encoding = encoding or file_obj.encoding", "encoding = file_obj.encoding or encoding")),
+    ('a bytes line yielded in text mode', lambda: _rv("yield line.decode(encoding) if encoding else line\n        buff", "yield line\n        buff")),
+]
+
+# JSONLIterator.next (round 3f, J-rules)
+_RJ_JSONL = '''import json
+class JSONLIterator:
+    def next(self):
+        while 1:
+            line = next(self._line_iter).lstrip()
+            line = line.rstrip('\\r\\n' if isinstance(line, str) else b'\\r\\n')
+            if not line:
+                continue
+            try:
+                obj = json.loads(line)
+            except Exception:
+                if not self.ignore_errors:
+                    raise
+                continue
+            return obj
+'''
+
+
+def _rj(old, new):
+    assert _RJ_JSONL.count(old) >= 1, old
+    return _RJ_JSONL.replace(old, new, 1)
+
+
+REJECT_JSONL = [
+    ('iterator attribute passed on', lambda: _rj("            if not line:", "            print(self._line_iter)\n            if not line:")),
+    ('iterator attribute rebound', lambda: _rj("            if not line:", "            self._line_iter = iter([])\n            if not line:")),
+    ('next with a default', lambda: _rj("next(self._line_iter)", "next(self._line_iter, b'')")),
+    ('next inside a condition', lambda: _rj("            if not line:", "            if next(self._line_iter):\n                continue\n            if not line:")),
+    ('next as an argument, not the receiver', lambda: _rj("line = next(self._line_iter).lstrip()", "line = bytes.lstrip(next(self._line_iter))")),
+    ('two next in one statement', lambda: _rj("next(self._line_iter).lstrip()", "next(self._line_iter).lstrip().rstrip(next(self._line_iter))")),
+    ('another attribute of self', lambda: _rj("if not self.ignore_errors:", "if not self.strict:")),
+    ('flag assigned', lambda: _rj("            if not line:", "            self.ignore_errors = True\n            if not line:")),
+    ('lstrip with an argument', lambda: _rj(".lstrip()", ".lstrip(b' ')")),
+    ('isinstance against another class', lambda: _rj("isinstance(line, str)", "isinstance(line, bytearray)")),
+    ('isinstance of something that is not a line', lambda: _rj("isinstance(line, str)", "isinstance(self, str)")),
+    ('str chars on a bytes line', lambda: _rj("'\\r\\n' if isinstance(line, str) else b'\\r\\n'", "b'\\r\\n' if isinstance(line, str) else '\\r\\n'")),
+    ('narrower handler', lambda: _rj("except Exception:", "except ValueError:")),
+    ('handler with a name', lambda: _rj("except Exception:", "except Exception as e:")),
+    ('bare except', lambda: _rj("except Exception:", "except:")),
+    ('two statements in the try body', lambda: _rj("                obj = json.loads(line)\n", "                obj = json.loads(line)\n                line = obj\n")),
+    ('json.loads with keywords', lambda: _rj("json.loads(line)", "json.loads(line, strict=False)")),
+    ('json.loads of something else than a line', lambda: _rj("json.loads(line)", "json.loads(line + b' ')")),
+    ('json rebound', lambda: _rj("        while 1:", "        json = None\n        while 1:")),
+    ('handler reads the result', lambda: _rj("                continue\n            return obj", "                print(obj)\n                continue\n            return obj")),
+    ('try with else', lambda: _rj("                continue\n            return obj", "                continue\n            else:\n                pass\n            return obj")),
+    ('loop with a break', lambda: _rj("            if not line:\n                continue", "            if not line:\n                break")),
+    ('return without a value', lambda: _rj("            return obj", "            return")),
+    ('reserved name used', lambda: _rj("        while 1:", "        line_iter = 1\n        while 1:")),
+    ('json.dumps', lambda: _rj("            if not line:", "            json.dumps(1)\n            if not line:")),
+]
+
+# the str kind of JSONLIterator.next (spec index 1)
+REJECT_JSONL_STR = [
+    ('str kind: bytes chars on a str line', lambda: _rj("'\\r\\n' if isinstance(line, str) else b'\\r\\n'", "b'\\r\\n' if isinstance(line, str) else '\\r\\n'")),
+    ('str kind: a bytes literal outside the dead branch', lambda: _rj("            if not line:", "            if line == b'':\n                continue\n            if not line:")),
+    ('str kind: lstrip with an argument', lambda: _rj(".lstrip()", ".lstrip(' ')")),
+]
+
 
 def reject_tests(verbose=True):
     """-> list of snippets that were NOT refused (must be empty); the unmodified snippet must be accepted"""
@@ -1053,9 +1708,36 @@ def reject_tests(verbose=True):
 
     def tr_rev(src):
         specs = [copy.deepcopy({k: v for k, v in sp.items() if not k.startswith('_')}) for sp in srctie_specs.SPECS['C19']
-                 if sp['module'] == 'boltons.jsonutils']
+                 if sp['module'] == 'boltons.jsonutils' and sp['qualname'] == 'reverse_iter_lines']
         _t, infos = py2lean.translate_source(src, specs, 'boltons.jsonutils', '<snippet>')
         return infos
+
+    def tr_jsonl(src):
+        specs = [copy.deepcopy({k: v for k, v in sp.items() if not k.startswith('_')}) for sp in srctie_specs.SPECS['C19']
+                 if sp['module'] == 'boltons.jsonutils' and sp['qualname'] == 'JSONLIterator.next']
+        _t, infos = py2lean.translate_source(src, specs, 'boltons.jsonutils', '<snippet>')
+        return infos           # [bytes kind, str kind]
+    for what, mk in REJECT_JSONL_STR:
+        infos = tr_jsonl(mk())
+        if len(infos) < 2 or not infos[1].get('error'):
+            bad.append((what, 'accepted'))
+        elif verbose:
+            print('refused (%s): %s' % (what, infos[1]['error'][:110]))
+    ok = tr_jsonl(_RJ_JSONL)
+    if any(i.get('error') for i in ok):
+        bad.append(('the unmodified JSONLIterator.next snippet', [i.get('error') for i in ok]))
+    for what, mk in REJECT_JSONL:
+        src = mk()
+        try:
+            compile(src, '<snippet>', 'exec')
+        except SyntaxError as e:
+            bad.append((what, 'snippet does not compile: %s' % e))
+            continue
+        infos = tr_jsonl(src)
+        if not infos[0].get('error'):
+            bad.append((what, 'accepted'))
+        elif verbose:
+            print('refused (%s): %s' % (what, infos[0]['error'][:110]))
     ok = tr_rev(_RJ_REV)
     if any(i.get('error') for i in ok):
         bad.append(('the unmodified reverse_iter_lines snippet', [i.get('error') for i in ok]))
@@ -1071,4 +1753,16 @@ def reject_tests(verbose=True):
             bad.append((what, 'accepted'))
         elif verbose:
             print('refused (%s): %s' % (what, infos[0]['error'][:110]))
+    for what, mk in REJECT_REV_TEXT:
+        src = mk()
+        try:
+            compile(src, '<snippet>', 'exec')
+        except SyntaxError as e:
+            bad.append((what, 'snippet does not compile: %s' % e))
+            continue
+        infos = tr_rev(src)
+        if len(infos) < 2 or not infos[1].get('error'):
+            bad.append((what, 'accepted'))
+        elif verbose:
+            print('refused (%s): %s' % (what, infos[1]['error'][:110]))
     return bad
